@@ -22,6 +22,12 @@ RULE = (
     "clock takes >=3 distinct values and at least one dispatch leaves it "
     "unchanged."
 )
+RULE += (
+    " Thorough tier additionally, split among the workers: small-scope exhaustive "
+    "enumeration - all 29331 instances with job lengths (1) (2) (3) (1,1) (1,2) "
+    "(2,1) (2,2) (1,1,1) (1,1,2) (1,2,1) (2,1,1), machine sets {[0],[1],[0,1]}, "
+    "durations {0,1,3} - with every dispatch history of each (jsverif/smallscope.py)."
+)
 BUDGET = {"quick": 1000, "thorough": 10000}
 ASSUMPTIONS = [
     "with a filter installed only positive durations are generated (the statement's domain)",
@@ -51,7 +57,75 @@ def strategy(tier):
     return _cases(tier)
 
 
+SMALL_FILTERS = [None] + [[n] for n in gen.FILTER_NAMES] + [
+    ["dominated_operations", "non_idle_machines"],
+    ["non_immediate_machines", "dominated_operations"],
+]
+
+
+def worker_cases(tier, index, n):
+    if tier != "thorough":
+        return
+    from .. import smallscope
+
+    for inst in smallscope.shard(index, n):
+        yield {"mode": "small_scope", "inst": inst}
+
+
+def _small_scope(case, ctx):
+    """Every complete history of the instance (all choices among AVAILABLE
+    operations), under no filter and - for positive durations - under each
+    single built-in filter and two compositions."""
+    from ..lib import build_instance
+
+    inst = case["inst"]
+    positive = all(x > 0 for r in inst["durations"] for x in r)
+    for filters in SMALL_FILTERS if positive else [None]:
+
+        def rec(prefix):
+            drv = Driver(inst, filters)
+            twin = Driver(inst, None) if filters else None
+            d, m = drv.dispatcher, drv.model
+            prev_now, prev_done = None, set()
+            for k in range(len(prefix) + 1):
+                now = d.current_time()
+                done = {fp.jp(o) for o in d.completed_operations()}
+                avail = m.available(filters)
+                ctx.check(now == m.min_start(avail), "now-vs-model", f"filters {filters}, history {prefix[:k]}: current_time()={now}, model {m.min_start(avail)}")
+                ctx.check(done == set(m.completed(now)), "completed-vs-model", f"filters {filters}, history {prefix[:k]}: completed {sorted(done)}")
+                if twin is not None:
+                    ctx.check(twin.dispatcher.current_time() == now, "filter-changes-time", f"filters {filters}, history {prefix[:k]}: {now} vs {twin.dispatcher.current_time()} unfiltered")
+                if prev_now is not None:
+                    ctx.check(now >= prev_now, "clock-decreased", f"filters {filters}, history {prefix[:k]}: {prev_now} -> {now}")
+                    ctx.check(prev_done <= done, "completed-shrank", f"filters {filters}, history {prefix[:k]}")
+                prev_now, prev_done = now, done
+                if k < len(prefix):
+                    j, x = prefix[k]
+                    p = m.next[j]
+                    drv.dispatch(j, p, x)
+                    if twin is not None:
+                        twin.dispatch(j, p, x)
+            ctx.count("small_scope_nodes")
+            if m.complete():
+                ctx.check(prev_now == d.schedule.makespan() == m.makespan(), "final-time", f"filters {filters}, history {prefix}: time {prev_now}, makespan {m.makespan()}")
+                return
+            avail_real = [fp.jp(o) for o in d.available_operations()]
+            if not avail_real:
+                ctx.fail("deadlock", f"filters {filters}, history {prefix}: nothing available")
+            for j, p in avail_real:
+                for x in inst["machines"][j][p]:
+                    rec(prefix + [(j, x)])
+
+        rec([])
+    ctx.count("small_scope_instances")
+    ctx.label("mode=small_scope")
+    ctx.nontrivial = sum(len(r) for r in inst["durations"]) >= 3
+
+
 def check_case(case, ctx):
+    if case.get("mode") == "small_scope":
+        _small_scope(case, ctx)
+        return
     inst, filters, history = case["inst"], case["filters"], case["history"]
     drv = Driver(inst, filters)
     twin = Driver(inst, None) if filters else None
